@@ -2,7 +2,7 @@
    Only statements; proofs are in Proofs/ResP*.v and Proofs/WorkerP*.v. *)
 From Coq Require Import ZArith Bool List.
 Import ListNotations.
-From Verif Require Import Model.Val Model.Res Model.Worker Proofs.ResP Proofs.ResP2 Proofs.WorkerP Proofs.WorkerP2 Proofs.WorkerP3 Proofs.WorkerP4 Proofs.WorkerPR Proofs.MonitorP Proofs.ResP3 Proofs.WorkerEx.
+From Verif Require Import Model.Val Model.Res Model.Worker Proofs.ResP Proofs.ResP2 Proofs.WorkerP Proofs.WorkerP2 Proofs.WorkerP3 Proofs.WorkerP4 Proofs.WorkerPR Proofs.MonitorP Proofs.ResP3 Proofs.ResP4 Proofs.WorkerEx.
 Open Scope Z_scope.
 
 (* For every history of allocate / allocate_multiple / deallocate / get_allocated_resources on a
@@ -117,6 +117,14 @@ Theorem C04_worker_demand_le_capacity : forall tbl w n, WInv tbl w -> demand_nam
 Proof. exact demand_le_capacity. Qed.
 Print Assumptions C04_worker_demand_le_capacity.
 
+(* the simulator corollary at worker level: a worker with nothing placed and no profile reports zero
+   allocated quantity and full availability for every resource (checked on end-to-end runs by the
+   monitor check_idle on the live cluster whenever no task is placed) *)
+Theorem C04_idle_worker : forall tbl w r, WInv tbl w -> w_placed w = [] -> w_avail_prof w = [] -> w_pend_prof w = [] ->
+  r_allocated_q (w_res w) r = 0 /\ r_available (w_res w) r = r_total_q (w_res w) r.
+Proof. exact winv_idle_zero. Qed.
+Print Assumptions C04_idle_worker.
+
 (* ---- pools: every state reachable by pool operations whose placements / loads are fresh ---- *)
 Theorem C04_pool_invariant : forall tbl P0 P, PInv tbl P0 -> p_reach tbl P0 P -> PInv tbl P.
 Proof. exact pinv_reach. Qed.
@@ -139,6 +147,21 @@ Theorem C04_pool_no_oversubscription : forall tbl P, PInv tbl P ->
   (forall t w1 w2, holds (p_workers P) w1 t -> holds (p_workers P) w2 t -> w1 = w2).
 Proof. exact pool_no_oversubscription. Qed.
 Print Assumptions C04_pool_no_oversubscription.
+
+(* ---- "it fits" implies "the placement succeeds" when the request names each resource once ---- *)
+Theorem C04_fit_implies_success : forall R req c, NoDup (req_names req) -> r_gt R req = true ->
+  exists R', r_allocate_multiple R req c = (R', Ok tt).
+Proof. exact fit_implies_success. Qed.
+Print Assumptions C04_fit_implies_success.
+Theorem C04_worker_fit_place_succeeds : forall t s w, NoDup (req_names (s_req s)) -> r_gt (w_res w) (s_req s) = true ->
+  (s_is_batch s = true -> 1 <= s_bsize s /\ zfind (s_id s) (w_batches w) = None) ->
+  snd (w_place t s w) = Ok tt.
+Proof. exact w_fit_place_succeeds. Qed.
+Print Assumptions C04_worker_fit_place_succeeds.
+Theorem C04_fit_not_success_refuted :
+  exists R req c R' e, r_gt R req = true /\ r_allocate_multiple R req c = (R', Err e).
+Proof. exact fit_not_success_refuted. Qed.
+Print Assumptions C04_fit_not_success_refuted.
 
 (* ---- copies ---- *)
 (* a shallow copy of a ledger whose vector has no two matching cells always succeeds and has the same
